@@ -1257,8 +1257,8 @@ func c04(c *Ctx) {
 	}
 	sel := append(append([]*c04Run{}, runs[:nCorpus]...), rest...)
 	workers := runtime.NumCPU()
-	if workers > 8 {
-		workers = 8
+	if workers > 4 {
+		workers = 4
 	}
 	results := parallelMap(len(sel), workers, func(i int) c04RunRes {
 		return c04Behaviour(c, sel[i], known[sel[i]])
